@@ -14,6 +14,7 @@ import sys
 import vlib
 from checks.loopfam import default_cfg, explore_config
 from checks.loopdriver import run_family
+from checks.progloop import cfgp, explore_progloop, progloop_configs
 
 
 def configs(tier: str):
@@ -56,25 +57,37 @@ TWINS = [
 ]
 
 
+def explore_any(cfg: dict) -> dict:
+    if cfg.get('part') == 'progloop':
+        return explore_progloop(cfg)
+    return explore_config(cfg)
+
+
 def main() -> int:
     tier = vlib.tier()
     rep = vlib.Report('C02', 'model_checking', tier)
     run_family(
-        rep, configs(tier), TWINS,
+        rep, configs(tier) + progloop_configs(tier, finite=True), TWINS + [cfgp(prog='feedback', B=2, twin='plus_one')],
         functions=['fsic.core.models.BaseModel.solve_t', 'fsic.core.interfaces.SolverMixin.solve_period',
                    'fsic.core.containers.VectorContainer._locate_period_in_span'],
         bounds={'max_iter': f"0..{2 if tier == 'quick' else 4}", 'check_variables': '0..2', 'span_length': 3,
                 'positions': 'every positive and negative position', 'min_iter': 'symbolic in 0..max_iter+1',
                 'offset': 'symbolic in -L-1..L+1 or 0', 'tol': 'any Float64 (incl. 0, negative, NaN, inf)',
                 'values': 'every finite Float64 per cell and per pass'},
-        outside=['max_iter < 0', 'more than two check variables', 'non-finite data (C06)', 'failures outside {raise, ignore}',
+        outside=['parser-built models beyond the six listed under parser_built_models (full solve_t on generated code, symbolic cells)', 'max_iter < 0', 'more than two check variables', 'non-finite data (C06)', 'failures outside {raise, ignore}',
                  'pandas spans', 'Fortran engine (C07)'],
-        key_fn=finding_key,
+        key_fn=finding_key, explore=explore_any,
     )
+    from checks.progloop import PROGRAMS
+    from gram.family import show
+    rep.coverage['parser_built_models'] = {k: show(v) for k, v in PROGRAMS.items()}
     return rep.finish()
 
 
 def finding_key(cfg: dict, cand: dict) -> str:
+    if cfg.get('part') == 'progloop':
+        b = cand['replay']['bad']
+        return f"progloop:{cfg['prog']},B={cfg['B']},errors={cfg['errors']},failures={cfg['failures']},neg={cfg['neg']}:{b[0] if b else '?'}"
     bad = ' '.join(cand['replay']['bad'])
     if cfg['B'] == 0 and 'UnboundLocalError' in bad:
         return 'max_iter=0:UnboundLocalError'
